@@ -29,6 +29,7 @@ PLAIN_STRINGS = [
     "\"\"\"\"", "\U0001F600", "a\U0001F600b\U00010000", "é中", " ", " x",
     "\x7f", "line1\nline2", "a\n  b", "  a\n  b", "\nlead", "trail\n", "a\rb", "a\r\nb", "\t",
     "\x00", "\x07\x08\x0c\x1f", "tab\there", "/slash", "#nocomment", "{}[]()$!:=@|&...",
+    "x\"\"\"y\"\"\"z", "\"\"\"\"\"\"", "\u2028\u00a0\u0085",
 ]
 
 # raw bodies of block strings (between the triple quotes); the parsed value is
@@ -40,6 +41,7 @@ BLOCK_BODIES = [
     "x\\\"\"\"y", "\\\"\"\"", " \\\"\"\"", "\\\"\"\"\"\n", "a\"\"\n", "\"a", "a\\\\ ", "\\n not escape",
     "\n  a\\\n", "\U0001F600", " \U0001F600", "a\r\nb", "a\rb", "\r\n  a\r\n  b\r\n", "a # b", "unicode \\u0041",
     "a\n b\n  c\n   d", "   a\n  b\n c\nd", "\n\n\n", "a\n\n", "\n\na",
+    "a\\\"\"\"b\\\"\"\"c", "\\\"\"\"\\\"\"\"\n", " \\\"\"\" x \\\"\"\" ",
 ]
 
 
